@@ -4,7 +4,7 @@ import cxx_specs as XS
 
 PROPERTY = "C04"
 LEVEL = "proof"
-EXPLANATION = ""
+EXPLANATION = ('Translation validation per instruction: for every instruction kind and every (dst, src) register pair, with opcode, mod, immediate, register file, scratchpad contents and branch state symbolic, the bytes the real emitter writes - decoded and executed by an x86-64 subset semantics written from the SDM - produce the register file, scratchpad write and control transfer that the specification prescribes for the decoded instruction, and advance codePos by the number of bytes written (at most 32).')
 TRUSTED = ["suites/common/spec_x86.h: x86-64 subset semantics (Intel SDM) for the emitted instruction forms",
            "static assembly: prologue, loop load/store, dataset read, AES mix, epilogue, xmm13-15 constants (jit_compiler_x86_static.S, asm/*.inc)",
            "a real CPU executes the bytes as the SDM says; whole-program equivalence is the composition of the per-instruction facts (meta-step)",
